@@ -24,10 +24,12 @@ def seed_dir(pid, x):
     return f"{V}/seeded/{pid}_{x}"
 
 def import_seed(pid, x):
-    # first wave: /tmp/wt_<PID>/SEEDED/{A,B}; second wave: /tmp/w2_<PID>/SEEDED/{A,B} stored as C, D
+    # first wave: /tmp/wt_<PID>/SEEDED/{A,B}; second wave: /tmp/w2_<PID>/SEEDED/{A,B} stored as C, D; third wave /tmp/w3_<PID> stored as E, F
     src = f"/tmp/wt_{pid}/SEEDED/{x}"
     if x in ("C", "D"):
         src = f"/tmp/w2_{pid}/SEEDED/{'A' if x == 'C' else 'B'}"
+    if x in ("E", "F"):
+        src = f"/tmp/w3_{pid}/SEEDED/{'A' if x == 'E' else 'B'}"
     d = seed_dir(pid, x)
     os.makedirs(d, exist_ok=True)
     for f in ["patch.diff", "demo.rs", "notes.md"]:
@@ -42,7 +44,7 @@ def validate(pid, x):
     rc, out = sh(f"git -C /repo worktree add --detach {wt} HEAD")
     shutil.copy("/repo/Cargo.lock", wt + "/Cargo.lock")
     m = load_meta(d)
-    m.update({"property": pid, "variant": x, "source": "independent sub-agent working in its own scratch worktree (given only the property text" + (" and one-line descriptions of the two first-wave changes to avoid)" if x in ("C", "D") else ")")})
+    m.update({"property": pid, "variant": x, "source": "independent sub-agent working in its own scratch worktree (given only the property text" + (" and one-line descriptions of the earlier changes to avoid)" if x in ("C", "D", "E", "F") else ")")})
     res = {}
     rc, out = sh(f"git apply {d}/patch.diff", cwd=wt)
     res["patch_applies_to_repo_head"] = rc == 0
